@@ -95,17 +95,19 @@ func c08() {
 	runUnprivChild(r, "c08-unpriv", map[string]string{"VERIF_CHILD_DIR": udir, "VERIF_CHILD_SHM": ushm}, udir, ushm)
 	forceRemove(udir)
 	forceRemove(shm)
+	c08Endpoint(r, filepath.Join(scratch, "endpoint"))
 
 	r.Assume("interference happens strictly between the scan and the transition (the documented check-to-unlink race windows are not attacked)")
 	r.Assume("every interference changes at least one of type, permission bits, size, mtime, inode or link target (replacement by a new inode is asserted to have changed the inode number)")
 	r.Assume("plans are built from the scan's synchronizable content (what reconciliation hands to Transition); unsynchronizable content on disk counts as content the plan does not know about")
+	r.Assume("endpoint level: the background poll watcher has rescanned after the interference when its poll signal arrived and two more polling intervals passed while a 20 ms heartbeat showed no gap of 1 s or more; otherwise the case is inconclusive")
 	if r.Counter("interferences_checked") == 0 {
 		r.Inconclusive("no interference was applied")
 	}
 	if r.Counter("clean_transitions_verified_done") == 0 {
 		r.Inconclusive("no non-interfered transition was verified (sanity)")
 	}
-	r.Finish("random disk trees scanned by the real core.Scan; plans of 1..6 disjoint transitions built from the snapshot (remove file/link/directory, swap file content or executability with staged content from a harness Provider on the same or another device, kind changes, creations); 0..3 interferences between scan and transition (in-place edit with unique token and mtime bump, same-size edit, chmod, replacement by a new inode of identical size/mtime/mode, link retarget, new child (also with a .mutagen-temporary- name) in a directory scheduled for removal, chmod back to the mode an earlier scan saw (scan1; chmod; scan2 re-using scan1's cache; plan from scan2; chmod back), file replaced by directory, object appearing at a planned creation path) plus pre-existing unsynchronizable or unlisted (temporary-named) content; real core.Transition as root and as uid 65534 (there with read-only directories); afterwards each interfered object is re-observed (lstat, sha1, readlink, recursive listing) and the problems are searched for its path; transitions without interference must report and reach their target (root runs); distinct = (uid, transition kind, interference kind, depth below the transition root, staging device)", 40)
+	r.Finish("random disk trees scanned by the real core.Scan; plans of 1..6 disjoint transitions built from the snapshot (remove file/link/directory, swap file content or executability with staged content from a harness Provider on the same or another device, kind changes, creations); 0..3 interferences between scan and transition (in-place edit with unique token and mtime bump, same-size edit, chmod, replacement by a new inode of identical size/mtime/mode, link retarget, new child (also with a .mutagen-temporary- name) in a directory scheduled for removal, chmod back to the mode an earlier scan saw (scan1; chmod; scan2 re-using scan1's cache; plan from scan2; chmod back), file replaced by directory, object appearing at a planned creation path) plus pre-existing unsynchronizable or unlisted (temporary-named) content; real core.Transition as root and as uid 65534 (there with read-only directories); afterwards each interfered object is re-observed (lstat, sha1, readlink, recursive listing) and the problems are searched for its path; transitions without interference must report and reach their target (root runs); plus the same cycle through a real local endpoint with poll-based watching at a 1 s interval, accelerated scanning on and off (Scan, plan from the returned snapshot, Stage with rsync transfer, interference, the watcher's poll signal plus two further polling intervals, Transition); distinct = (uid, transition kind, interference kind, depth below the transition root, staging device)", 40)
 }
 
 func c08Cases(out rec, run *vk.Run, dir, shm string, unpriv bool) {
